@@ -4,7 +4,9 @@ package nebula
 
 import (
 	"bytes"
+	"errors"
 	"fmt"
+	"github.com/slackhq/nebula/udp"
 	"net/netip"
 	"strings"
 	"testing"
@@ -308,6 +310,22 @@ func TestC32_PendingHandshake(t *testing.T) {
 // add a transmission round or burn one (both count as attempts upstream), so the exact schedule is
 // not asserted here; what must hold for every delivery instant: the handshake is never transmitted
 // in more rounds than handshakes.retries, and once the schedule has run out nothing is pending.
+// c32FaultConn fails every handshake-manager write while *fail is set (the interface is down, the send
+// buffer is full): a local, transient fault. The pending handshake must still run its schedule out.
+type c32FaultConn struct {
+	udp.Conn
+	fail   *bool
+	failed *int
+}
+
+func (c c32FaultConn) WriteTo(b []byte, addr netip.AddrPort) error {
+	if *c.fail {
+		*c.failed++
+		return errors.New("verif: injected socket write fault")
+	}
+	return c.Conn.WriteTo(b, addr)
+}
+
 func TestC32_LighthouseTrigger(t *testing.T) {
 	nsSetT(t)
 	vk.Check(t, 400, func(rt *rapid.T) {
@@ -343,6 +361,15 @@ func TestC32_LighthouseTrigger(t *testing.T) {
 			b.ctrl.SetLocalAddrsFn(func(*LocalAllowList) []netip.Addr { return []netip.Addr{real, ghost} })
 			w.startAll(rt)
 			addrA, addrB := w.commonAddr(bi, ai), w.commonAddr(ai, bi)
+			// a window of the retry schedule during which every write of a's handshake manager fails
+			failing, failedWrites := false, 0
+			hsm := a.ctrl.f.handshakeManager
+			hsm.outside = c32FaultConn{Conn: hsm.outside, fail: &failing, failed: &failedWrites}
+			faultFrom, faultLen := time.Duration(-1), time.Duration(0)
+			if rapid.IntRange(0, 2).Draw(rt, "socketFault") == 0 {
+				faultFrom = time.Duration(rapid.IntRange(0, retries*(retries+1)/2).Draw(rt, "faultFromTicks")) * interval
+				faultLen = time.Duration(rapid.IntRange(1, 3).Draw(rt, "faultLenTicks")) * interval
+			}
 			// both hosts reach the lighthouse and b's report arrives there
 			h.runFor(12*time.Second, 250*time.Millisecond)
 			if len(lh.allTunnels()) < 2 {
@@ -367,6 +394,7 @@ func TestC32_LighthouseTrigger(t *testing.T) {
 			seenAt := map[time.Duration]bool{}
 			step := interval / 4
 			for el := time.Duration(0); el < total+time.Duration(retries+4)*interval+time.Second; el += step {
+				failing = faultFrom >= 0 && el >= faultFrom && el < faultFrom+faultLen
 				s.settle()
 				if !released && el >= releaseAt {
 					released = true
@@ -416,6 +444,9 @@ func TestC32_LighthouseTrigger(t *testing.T) {
 				rt.Fatalf("the handshake to %v is still pending after its whole retry schedule\n%s", addrB, desc)
 			}
 			w.checkPending(rt)
+			if failedWrites > 0 {
+				labels = append(labels, "socket-write-fault-during-the-schedule")
+			}
 			if lateReplies > 0 {
 				labels = append(labels, "lighthouse-answer-delivered-late")
 				if releaseAt > total-time.Duration(retries)*interval {
@@ -424,7 +455,7 @@ func TestC32_LighthouseTrigger(t *testing.T) {
 			}
 			labels = append(labels, fmt.Sprintf("rounds-vs-retries:%d", rounds-retries))
 		})
-		vk.Case("C32", fmt.Sprintf("lh/%v/%d/%d/%d", interval, retries, rounds, lateReplies), lateReplies > 0 && rounds > 0, labels...)
+		vk.Case("C32", fmt.Sprintf("lh/%v/%d/%d/%d/%v", interval, retries, rounds, lateReplies, labels), (lateReplies > 0 && rounds > 0) || contains(labels, "socket-write-fault-during-the-schedule"), labels...)
 	})
 }
 
